@@ -150,3 +150,24 @@ const (
 	VerifMetricBytesReadLimit = metricBytesReadLimit
 	VerifMaxDeletionSize      = maxDeletionSizeLimit
 )
+
+// ---- journal long-poll path of the rpc handler (C15: "the journal returns each entity's latest version exactly once")
+
+// VerifBroadcastJournal runs the real broadcastJournal (what RawEditEntity calls after a successful save).
+func VerifBroadcastJournal(h *Handler) { h.broadcastJournal() }
+
+// VerifJournalWaiting returns the From values of the journal long-poll clients that are parked right now (sorted).
+func VerifJournalWaiting(h *Handler) []int64 {
+	h.getJournalClients.mx.Lock()
+	defer h.getJournalClients.mx.Unlock()
+	res := make([]int64, 0, len(h.getJournalClients.clients))
+	for _, a := range h.getJournalClients.clients {
+		res = append(res, a.From)
+	}
+	for i := 1; i < len(res); i++ {
+		for j := i; j > 0 && res[j] < res[j-1]; j-- {
+			res[j], res[j-1] = res[j-1], res[j]
+		}
+	}
+	return res
+}
